@@ -134,6 +134,13 @@ OPTION_VALUES_OFF = {}       # implicit depth multiplier 0: known finding M2, re
 TENSOR_CLASSES_OFF = {}      # float min/max-only tables, shape_signature, has_rank: known findings M3, M4, reported by the check
 TENSOR_CLASSES = ("float_minmax_only", "shape_signature", "has_rank")
 
+# Fields.tla enumerates EVERY subset of the members of the quantisation table.  The subsets with neither a scale nor a zero
+# point (min / max / quantised dimension only, on integer and float tensors) are all lost by the unchanged tree for the
+# reason of known finding M3 (tflite_reader.py drops a table that has neither), but only the float {min, max} instance of
+# them carries M3's match key.  They are not instantiated while this entry exists (reproduction:
+# harness/repro/c11_partial_quant_tables.py); delete the entry to have plan() generate them.
+NOSCALE_TABLES_OFF = {}     # tables with neither scale nor zero point: known finding M3 (match keys widened), reported by the check
+
 
 def dflt_class(kind, dflt):
     if kind in ("vec", "str"):
@@ -195,7 +202,17 @@ def case_key(c):
         return "operand|" + "".join(c["slots"])
     if c["sort"] == "output":
         return "output|" + ";".join("+".join(sorted(u)) or "unused" for u in c["uses"])
-    return "tensor|%s|%s" % (c["role"], "+".join(sorted(c["has"])) or "plain")
+    if c["sort"] == "weight":
+        return "weight|%s|zp=%s|per-%s|%s|kept:%s" % (c["opt"], c["zp"], c["per"], c["act"], c["why"])
+    return tensor_key(c["role"], c["has"], c["dt"])
+
+
+def tensor_key(role, has, dt):
+    return "tensor|%s|%s|%s" % (role, dt, "+".join(sorted(has)) or "plain")
+
+
+def noscale(has):
+    return bool(has) and not (set(has) & {"scale", "zp"})
 
 
 # --------------------------------------------------------------------------------------------------------------------
@@ -334,74 +351,152 @@ class Island:
 # --------------------------------------------------------------------------------------------------------------------
 # int8 network with every tensor role
 # --------------------------------------------------------------------------------------------------------------------
+# Weight cases the UNCHANGED tree breaks (genuine finding of this check, reported to the lead; reproduction:
+# harness/repro/c11_force_symmetric_peraxis.py): with --force-symmetric-int-weights the PER-AXIS zero points of the weights of
+# a convolution that stays on the CPU for another reason are written as zeros (QuantizationParameters.clone() shares the
+# zero point array with the source tensor; Fields.tla policy CloneQuant = "shallow").  Delete the entry to generate them.
+WEIGHT_CASES_OFF = {}      # (per-axis zero points zeroed in the source tensor: repaired in /repo, finding T1)
+
+
 ROLES = ("graph_in", "npu_to_cpu", "npu_to_net", "cpu_to_npu", "cpu_to_net", "cpu_to_cpu", "const", "state")
+# the tensors of tensor_net(): (slot, role, next to an NPU operator)
+SLOTS = (("in0", "graph_in", True), ("in1", "graph_in", False), ("head", "npu_to_cpu", True), ("side", "npu_to_net", True),
+         ("mix_k", "const", False), ("mix_state", "state", False), ("mix_inter", "state", False),
+         ("mix", "cpu_to_cpu", False), ("mix_aux", "cpu_to_net", False), ("folded", "cpu_to_npu", True),
+         ("tail", "npu_to_net", True))
+FREE_SLOTS = tuple(sl for sl, _, npu in SLOTS if not npu)
+NPU_SLOTS = tuple(sl for sl, _, npu in SLOTS if npu)
 
 
 def tensor_net(sd, rng, assignment, keyof, extras=()):
-    """assignment: {role: set of optional members}.  One network in which every role exists:
+    """assignment: {slot: (set of members of the quantisation table, "int" / "float")}.  One network in which every role
+    exists:
 
         in0 -> conv "head"(NPU) -> h0 -> CUSTOM "mix"(CPU; h0, in1, mix_k, mix_state | intermediate mix_inter) -> m1
         m1 -> CUSTOM "fold"(CPU) -> q -> conv "tail"(NPU) -> out (network output)
         in0 -> maxpool "side"(NPU) -> p0 (network output);    "mix" second output e1 (network output)
 
-    optional members: "minmax" = min / max stored next to scale / zero point; "qdim" = a non-zero quantised dimension
-    stored; "peraxis" = scale and zero point vectors (along the stored quantised dimension when the case also has
-    "qdim", else along axis 0).  Tensors only CPU operators touch have a first dimension > 1 so that both exist."""
+    members: "scale", "zp", "min", "max" = that vector is stored; "qdim" = a non-zero quantised dimension is stored;
+    "peraxis" = the scale / zero point vectors that are stored have one entry per channel (along the stored quantised
+    dimension when the case also has "qdim", else along axis 0).  A tensor next to an NPU operator always has scale and
+    zero point; the others carry exactly the members of their case (no table at all for the empty set).  Tensors only
+    CPU operators touch have a first dimension > 1 so that both axes exist."""
     n = netgen.Net(sd)
     C = 8
     shape = [1, 6, 6, C]
-
+    role_of = {sl: r for sl, r, _ in SLOTS}
     cases = []
 
-    def dress(t, role, npu=False):
-        has = set(assignment[role])
+    def dress(t, slot, npu=False):
+        role = role_of[slot]
+        has, dt = assignment[slot]
+        has = set(has)
         if npu:
             has.discard("peraxis")
+            has |= {"scale", "zp"}
+            dt = "int"
         tt = n.t[t]
-        cases.append([keyof(role, has), "%s: %s carries %s" % (role, tt["name"], sorted(has) or "nothing optional")])
+        cases.append([keyof(role, has, dt), "%s: %s (%s) carries %s" % (role, tt["name"], dt, sorted(has) or "no table")])
         if "shape_signature" in extras and role in ("graph_in", "npu_to_net", "cpu_to_net"):
             tt["shape_signature"] = [-1] + list(tt["shape"][1:])
         if "has_rank" in extras and role in ("graph_in", "cpu_to_net", "cpu_to_cpu"):
             tt["has_rank"] = True
+        if dt == "float":
+            tt["type"] = "FLOAT32"
+            if "data" in tt:
+                tt["data"] = {"iota": 1, "mod": 7}
         sc, z = tt["scale"][0], tt["zp"][0]
         axis = 0
         if "qdim" in has:
             axis = len(tt["shape"]) - 1
             tt["qdim"] = axis
-        if "peraxis" in has:
-            k = tt["shape"][axis]
-            tt["scale"] = [sc * (1 + 0.125 * (i % 3)) for i in range(k)]
-            tt["zp"] = [z] * k
-        if "minmax" in has:
-            lo, hi = (-128, 127) if tt["type"] == "INT8" else (-32768, 32767)
-            tt["min"] = [float(s_ * (lo - z)) for s_ in tt["scale"]]
-            tt["max"] = [float(s_ * (hi - z)) for s_ in tt["scale"]]
+        k = tt["shape"][axis] if "peraxis" in has else 1
+        tt["scale"] = [sc * (1 + 0.125 * (i % 3)) for i in range(k)]
+        tt["zp"] = [z] * k
+        lo, hi = (-32768, 32767) if tt["type"] == "INT16" else (-128, 127)
+        tt["min"] = [float(s_ * (lo - z)) for s_ in tt["scale"]]
+        tt["max"] = [float(s_ * (hi - z)) for s_ in tt["scale"]]
+        if not npu:
+            tt["qpresent"] = sorted(has & {"scale", "zp", "min", "max", "qdim"})
+        for m in ("scale", "zp", "min", "max"):
+            if m not in has:
+                if npu or m in ("min", "max"):
+                    tt.pop(m, None)
+                else:
+                    tt[m] = None        # the other builders read these keys
+        if not has:
+            tt.pop("qpresent", None)
         return t
 
-    in0 = dress(n.fm("in0", shape, scale=0.05, zp=rng.choice([0, 2, -3]), is_input=True), "graph_in", npu=True)
-    in1 = dress(n.fm("in1", [2, 3, C], scale=0.04, zp=1, is_input=True), "graph_in")
-    h0 = dress(n.conv(in0, C, 1, name="head"), "npu_to_cpu", npu=True)
-    p0 = dress(n.pool(in0, "MAX_POOL_2D", k=3, stride=1, name="side"), "npu_to_net", npu=True)
-    k1 = dress(n.const("mix_k", [C], "INT8", -100, 100, scale=[0.02], zp=[0]), "const")
-    s1 = dress(n.fm("mix_state", [2, C], "INT8", 0.03, 0), "state")
+    in0 = dress(n.fm("in0", shape, scale=0.05, zp=rng.choice([0, 2, -3]), is_input=True), "in0", npu=True)
+    in1 = dress(n.fm("in1", [2, 3, C], scale=0.04, zp=1, is_input=True), "in1")
+    h0 = dress(n.conv(in0, C, 1, name="head"), "head", npu=True)
+    p0 = dress(n.pool(in0, "MAX_POOL_2D", k=3, stride=1, name="side"), "side", npu=True)
+    k1 = dress(n.const("mix_k", [2, C], "INT8", -100, 100, scale=[0.02], zp=[0]), "mix_k")
+    s1 = dress(n.fm("mix_state", [2, C], "INT8", 0.03, 0), "mix_state")
     n.t[s1]["is_variable"] = True
-    i1 = dress(n.fm("mix_inter", [2, C], "INT16", 0.001, 0), "state")
-    m1 = dress(n.fm("mix", [2, 3, 6, C], "INT8", 0.06, -1), "cpu_to_cpu")
-    e1 = dress(n.fm("mix_aux", [2, 6, C], "INT8", 0.07, 3), "cpu_to_net")
+    i1 = dress(n.fm("mix_inter", [2, C], "INT16", 0.001, 0), "mix_inter")
+    m1 = dress(n.fm("mix", [2, 3, 6, C], "INT8", 0.06, -1), "mix")
+    e1 = dress(n.fm("mix_aux", [2, 6, C], "INT8", 0.07, 3), "mix_aux")
     mix_in = [h0, in1, k1, s1]
     if "dup_operands" in extras:          # the same tensors once more, further back in the operand vector
         mix_in += [h0, k1]
     if "shared_buffer" in extras:         # a second constant that shares the buffer of the first
-        n.t.append({"name": "mix_k_alias", "shape": [C], "type": "INT8", "scale": [0.5], "zp": [0], "buffer_of": k1})
+        n.t.append({"name": "mix_k_alias", "shape": [2, C], "type": n.t[k1]["type"], "scale": [0.5], "zp": [0],
+                    "buffer_of": k1})
         mix_in.append(len(n.t) - 1)
     n.op("CUSTOM", mix_in, [m1, e1], custom_code="Mix", custom_options=[4, 2], intermediates=[i1])
-    q = dress(n.fm("folded", shape, "INT8", 0.06, -1), "cpu_to_npu", npu=True)
+    q = dress(n.fm("folded", shape, "INT8", 0.06, -1), "folded", npu=True)
     n.op("CUSTOM", [m1], [q], custom_code="Fold", custom_options=[1])
-    out = dress(n.conv(q, C, 1, name="tail"), "npu_to_net", npu=True)
+    out = dress(n.conv(q, C, 1, name="tail"), "tail", npu=True)
     outs = [out, p0, e1]
     rng.shuffle(outs)
     d = n.desc(outs)
     d["c11_cases"] = cases
+    return d
+
+
+# --------------------------------------------------------------------------------------------------------------------
+# weight cases: convolutions that stay on the CPU, compiled with an option that touches tensors
+# --------------------------------------------------------------------------------------------------------------------
+OPT_ARGS = {"none": {}, "force_symmetric": {"extra": ["--force-symmetric-int-weights"]}, "optimise_size": {"optimise": "Size"},
+            "cpu_align": {"align": 64}}
+
+
+def weight_net(sd, rng, opt, act, cases):
+    """in0 -> conv "head"(NPU) -> one CONV_2D / DEPTHWISE_CONV_2D per case (each kept on the CPU for the reason of its
+    case) -> conv "tail"(NPU).  Returns the description; "c11_cases" = [[key, what, name of the operator's output]]."""
+    n = netgen.Net(sd)
+    C = 8
+    dt = "INT16" if act == "int16" else "INT8"
+    x = n.fm("in0", [1, 16, 16, C], dt, 0.05, 0 if dt == "INT16" else rng.choice([0, 2, -3]), is_input=True)
+    cur = n.conv2(x, C, 1, 1, name="head")
+    planned = []
+    strided = False
+    for j, c in enumerate(cases):
+        nm = "w%d_%s" % (j, c["why"])
+        dw = (j + sd) % 3 == 1
+        kw = {}
+        if c["why"] == "other":         # a reason of its own to stay off the NPU: stride 4, or a dilated kernel taller than 64
+            if not strided and (j + sd) % 2 == 0:
+                kw, strided = {"sh": 4, "sw": 4}, True
+            else:
+                kw = {"dh": 40}
+        if dw:
+            cur = n.dwconv2(cur, 3, 3, name=nm, **kw)
+        else:
+            cur = n.conv2(cur, C, 3, 3, name=nm, per_channel=(c["per"] == "axis"), **kw)
+        wt = n.t[n.o[-1]["inputs"][1]]
+        k = len(wt["scale"]) if c["per"] == "axis" else 1
+        if dw and c["per"] == "tensor":
+            wt.pop("qdim", None)
+        wt["scale"] = [0.01 + 0.001 * (i % 7) for i in range(k)]
+        wt["zp"] = [0] * k if c["zp"] == "zero" else [5 - (i % 3) * 4 for i in range(k)]      # 5, 1, -3, 5 ...
+        planned.append([case_key(c), "%s weights zp %s, %s" % ("DEPTHWISE_CONV_2D" if dw else "CONV_2D", wt["zp"][:3], kw or "3x3"),
+                        nm])
+    y = n.conv2(cur, C, 1, 1, name="tail")
+    d = n.desc([y])
+    d["c11_cases"] = planned
     return d
 
 
@@ -514,21 +609,49 @@ def plan(cases, tier, sd, rng):
         for c, f in items[k:k + 4]:
             isl.outputs_case([set(u) for u in c["uses"]], case_key(c), f)
         nets.append(isl.finish())
-    # ---- tensor cases: every (role, subset of optional members) once
+    # ---- tensor cases: every slot of tensor_net() sees every member subset of its role once (thorough); a third of the
+    # networks, chosen by the seed, in the quick tier
     tcs = [c for c in cases if c["sort"] == "tensor"]
-    subsets = sorted({tuple(sorted(c["has"])) for c in tcs})
-    valid = {(c["role"], tuple(sorted(c["has"]))) for c in tcs}
+    valid = {(c["role"], tuple(sorted(c["has"])), c["dt"]) for c in tcs}
+    npu_roles = {r for _, r, npu in SLOTS if npu and r != "graph_in"}
+    free = sorted({(tuple(sorted(c["has"])), c["dt"]) for c in tcs if c["role"] not in npu_roles})
+    if NOSCALE_TABLES_OFF:
+        free = [f for f in free if not noscale(f[0])]
+    npu_sub = sorted({tuple(sorted(c["has"])) for c in tcs if c["role"] in npu_roles})
+    if len(free) < 40 or len(npu_sub) < 8:
+        raise MachineryError("implausible tensor lattice: %d / %d member subsets" % (len(free), len(npu_sub)))
 
-    def keyof(role, has):
-        if (role, tuple(sorted(has))) not in valid:
-            raise MachineryError("tensor case (%s, %s) is not in the lattice" % (role, sorted(has)))
-        return "tensor|%s|%s" % (role, "+".join(sorted(has)) or "plain")
+    def keyof(role, has, dt):
+        if (role, tuple(sorted(has)), dt) not in valid:
+            raise MachineryError("tensor case (%s, %s, %s) is not in the lattice" % (role, sorted(has), dt))
+        return tensor_key(role, has, dt)
     on = [c for c in TENSOR_CLASSES if c not in TENSOR_CLASSES_OFF]
-    for k in range(len(subsets)):
-        assignment = {r: set(subsets[(k + 3 * i + sd) % len(subsets)]) for i, r in enumerate(ROLES)}
+    order = list(range(len(free)))
+    random_order = __import__("random").Random(sd * 31 + 7)
+    random_order.shuffle(order)
+    for k in range(len(free)):
+        if quick and k % 3 != sd % 3:
+            continue
+        assignment = {}
+        for j, sl in enumerate(FREE_SLOTS):
+            assignment[sl] = free[order[(k + 5 * j) % len(free)]]
+        for j, sl in enumerate(NPU_SLOTS):
+            assignment[sl] = (npu_sub[(k + 3 * j + sd) % len(npu_sub)], "int")
         extras = (["dup_operands"] if k % 2 else []) + (["shared_buffer"] if k % 4 == 1 else [])
-        extras += [c for c in on if c != "float_minmax_only"]
+        extras += [c for c in on if c != "float_minmax_only"] if k % 8 == sd % 8 else []
         nets.append(tensor_net(sd * 1000 + len(nets), rng, assignment, keyof, extras))
+    # ---- weight cases: one network per (option, activation type), one convolution per case
+    wcs = [c for c in cases if c["sort"] == "weight"]
+    groups = {}
+    for c in sorted(wcs, key=case_key):
+        if (c["opt"], c["zp"], c["per"]) in WEIGHT_CASES_OFF:
+            continue
+        groups.setdefault((c["opt"], c["act"]), []).append(c)
+    for (opt, act), cs in sorted(groups.items()):
+        rng.shuffle(cs)
+        d = weight_net(sd * 1000 + len(nets), rng, opt, act, cs)
+        d["c11_opts"] = OPT_ARGS[opt]
+        nets.append(d)
     if "float_minmax_only" in on:
         isl = Island(sd * 1000 + len(nets), rng)
         isl.builtin("GELU", {"Approximate": True}, [])
